@@ -292,6 +292,26 @@ def random_c12(digital_rf, root, rng, name):
     if rng.random() < 0.3:
         observe(w, rng, readers, set(), tops, 2, uniform)
     stored = set()
+    sp = getattr(cfg, "special", [])
+    if len(sp) >= 3:
+        # a file whose sample names change their number of digits (P-1, P), with samples in the file before and after it,
+        # so that a read across all of them has that file in the middle
+        wP = max(j for j in range(cfg.nw) if cfg.bound[j] <= sp[2])
+        plan = []
+        if wP >= 1 and cfg.bound[wP - 1] < sp[1]:
+            plan.append([cfg.bound[wP - 1]])
+        plan.append([k for k in (sp[1], sp[2]) if cfg.bound[wP] <= k])
+        if wP + 1 < cfg.nw and cfg.bound[wP + 1] > sp[2]:
+            plan.append([cfg.bound[wP + 1]])
+        for idxs in plan:
+            idxs = [k for k in idxs if (not stored or k > max(stored)) and k < cfg.bound[-1]]
+            if idxs:
+                form = "single" if len(idxs) == 1 else rng.choice(["dict", "list"])
+                ev = w.write(form, idxs, make_data(rng, tpl, form, len(idxs), uniform))
+                stored |= set(idxs) if ev["resp"] == "ok" else set(ev["stored"])
+        if stored:
+            for rid in readers:
+                w.read(rid, min(stored), max(stored), [], "none")
     ncalls = rng.randint(3, 8)
     for c in range(ncalls):
         top = max(stored) if stored else -1
